@@ -8,7 +8,7 @@ from .common.httpgen import generate as _gen
 from .common.codec import hx, unhx
 
 PROPERTY = "C03"
-LEAN_MODULES = ["AioProps.C03", "AioProps.C03Main"]
+LEAN_MODULES = ["AioProps.C03", "AioProps.C03Main", "AioProps.C03Chunked"]
 THEOREMS = [
     "Aio.Http.findCRLF_append_stable",
     "Aio.Http.findSep_append_stable",
@@ -26,6 +26,16 @@ THEOREMS = [
     "Aio.Http.feedLoop_append",
     "Aio.Http.payloadLaws_nonChunked",
     "Aio.Http.feedLoop_append_nonChunked",
+    "Aio.Http.chunkedLoop_acc",
+    "Aio.Http.chunkedLoop_fuel",
+    "Aio.Http.chunkedLoop_split",
+    "Aio.Http.chunkedLoop_complete",
+    "Aio.Http.chunkedLoop_pos",
+    "Aio.Http.chunkedLoop_needs",
+    "Aio.Http.payloadLaws_all",
+    "Aio.Http.goodRun_anyBody",
+    "Aio.Http.feedLoop_append_all",
+    "Aio.Http.feed_two_reads",
 ]
 RULE = ("streams: grammar-generated request pipelines (1-3 requests; CL and chunked bodies with extensions/trailers; "
         "origin/absolute/asterisk/authority targets) and responses (lax and strict), each also mutated by one of the "
